@@ -73,6 +73,13 @@ def main():
     if args.what == "setup":
         for d in ("evidence", "replays"):
             os.makedirs(os.path.join(VERIF, d), exist_ok=True)
+        build.install_native(builddir)
+        from mc import warmup
+
+        try:
+            warmup.main()
+        except Exception as e:  # best effort only
+            print("warm-up skipped: %r" % (e,))
         print("setup ok: native modules in %s" % builddir)
         return 0
 
